@@ -262,6 +262,14 @@ def _oracle(payload):
             break
     if not orders:
         return "clause 1: the deordered plan has no linearisation"
+    # PartialOrderPlan.convert_to(SEQUENTIAL_PLAN) returns one of the linearisations
+    back = pop.convert_to(PlanKind.SEQUENTIAL_PLAN, run.P)
+    order = run.lin_indices(back)
+    if len(orders) < 720 and order not in orders:
+        return f"clause 1: convert_to(SEQUENTIAL_PLAN) returns {order}, which is not among all_sequential_plans()"
+    v2, f2 = run.validate(back)
+    if v2 != "T" or f2 != final:
+        return f"clause 1: the sequential plan {order} returned by convert_to(SEQUENTIAL_PLAN) is not valid / ends elsewhere"
     sets = [_ground_sets(run.ps, an, args) for an, args in run.steps]
     if any(s is None for s in sets):
         return None
@@ -629,22 +637,31 @@ def shrink(payload):
 
 MANIFEST = {
     "level_text": ("Lean 4 theorems (Props/C27.lean) about an executable model of SequentialPlan._to_partial_order_plan "
-                   "(Core/Deorder.lean: read/write sets computed on the problem syntax exactly as the code does, the "
-                   "last_modifier / all_required bookkeeping, nx.transitive_reduction) on top of C01's simulator model: for EVERY "
-                   "world, plan length and plan, with no size bound: two steps whose footprints do not overlap commute on every "
-                   "state that satisfies the invariants (same applicability, same result); every two steps in write/read-or-write "
-                   "conflict stay connected by a path of the graph, before and after the transitive reduction, hence keep their "
-                   "order in every topological ordering; and every topological ordering of the (reduced) graph of a valid plan is "
-                   "executable step by step and ends in a state that reads like the original final state on every ground fluent "
-                   "(so the goals hold). The model is tied to /repo on every run by a differential check of the raw and reduced "
-                   "edge sets, the number of linearisations, the validator's verdicts and final states on every linearisation."),
-    "level_note": ("The main theorem is proved under a DECIDABLE hypothesis (`covers`: the footprints the algorithm computes on the "
-                   "lifted actions cover everything the grounded, simplified actions and the simulator's invariants can read or "
-                   "write), evaluated by the model on every generated case and required to be true there; the unconditional "
-                   "statement is kept as C27_all_linearisations_full. What is missing for it is the syntactic lemma that "
-                   "quantifier removal + substitution + simplification never lose a fluent (it depends on property C11's "
-                   "simplifier, a parameter here). Trusted: Lean kernel; axioms propext, Classical.choice, Quot.sound; the "
-                   "correspondence harness; networkx's graph algorithms are modelled, not verified."),
+                   "(Core/Deorder.lean: read/write sets computed on the problem syntax exactly as the repaired code does, the "
+                   "last_modifier / all_required bookkeeping, nx.transitive_reduction, topological orderings) on top of C01's "
+                   "simulator model, for EVERY world, plan length and plan, with no size bound: (1) two grounded steps whose "
+                   "footprints do not overlap commute in every state satisfying the invariants (same applicability, same result); "
+                   "(2) every two steps in write/read-or-write conflict are joined by a path of the graph, before and after the "
+                   "transitive reduction, hence keep their order in every topological ordering, and every edge joins two "
+                   "conflicting steps; (3) every topological ordering of the (reduced) graph of a valid plan is executable step by "
+                   "step, satisfies the goals and ends in a state that reads like the original final state on every ground fluent - "
+                   "proved under the decidable hypothesis `covers`. The model is tied to /repo on every run by a differential check "
+                   "of UPUsageError, the raw and reduced edge sets, the number of linearisations, the validator's verdict on the "
+                   "plan and on EVERY linearisation (same final state), and `covers` is evaluated on every valid case; an oracle "
+                   "written from the property text (all_sequential_plans + SequentialPlanValidator + independent read/write sets) "
+                   "runs on every case."),
+    "level_note": ("PARTIAL for clause (3): the unconditional statement is C27_all_linearisations_full and is REFUTED by a "
+                   "kernel-checked witness (C27_all_linearisations_full_refuted): a quantifier over a user type without objects "
+                   "is unwrapped by the grounder's simplifier but expanded to a constant by the quantifier remover the deordering "
+                   "uses, so the grounded action reads a fluent the deordering never sees - this is C11's open finding D-C11e seen "
+                   "through the grounder and reproduces on the real code (known finding D-C27-objectless-quantifier; generators "
+                   "stay out of it). `covers` (footprints cover every read/write of the grounded, simplified actions and of the "
+                   "simulator's invariants; keys are ground and in 1-1 correspondence with state keys) excludes exactly that; it "
+                   "is not proved to follow from the computation of the footprints (needs facts about the simplifier, a parameter "
+                   "here), it is checked on every case instead. D-C27 (state invariants coupling fluents written by different "
+                   "steps) is repaired by notes/patches/C27-deorder-state-invariants.patch and the model mirrors the repair. "
+                   "Trusted: Lean kernel; axioms propext, Classical.choice, Quot.sound; the correspondence harness; networkx's "
+                   "graph algorithms and SequentialPlanValidator (C03) are modelled, not verified."),
     "technique": "Lean 4 proof (footprint commutation + linear extensions of a DAG by adjacent swaps) + model/code correspondence",
     "design_ref": "DESIGN.md §5 C27",
 }
